@@ -29,7 +29,7 @@ pub fn check(exp: &Decoded, reads: &Reads, events: &[Ev], tag: &str) -> Result<D
                     return Err((format!("fabricated-{}", tag), format!("after event #{} the delivered bytes ({} B) are not a prefix of the payload that arrived ({} B)", i, d.got.len(), exp.payload.len())));
                 }
                 let eof_signal = match reads {
-                    Reads::Drain(_) => true,
+                    Reads::Drain(_) | Reads::Text(_) => true,
                     Reads::Sizes(ns) => bs.is_empty() && ns[i] > 0,
                 };
                 if eof_signal && !(complete && d.got.len() == exp.payload.len()) {
